@@ -302,54 +302,87 @@ Theorem C11_debug_dialer_no_response_callback :
 Proof. exact debug_dialer_full_no_response_callback. Qed.
 Print Assumptions C11_debug_dialer_no_response_callback.
 
-(* wsutil.DebugUpgrader: result (error, Handshake, bytes written) = the plain Upgrader's on the same
-   conn, for every configuration, buffer size, chunking, read-ahead of net/http and callback setting;
-   OnResponse receives exactly the bytes written; OnRequest receives exactly the bytes net/http's
-   ReadRequest (and body drain) read from the conn, a prefix of what the client sent.  No byte is
-   invented or lost by the wrapper: the client's bytes are OnRequest's argument, then what the
-   Upgrader read from the conn on its own, then what the conn still delivers; and when the captured
-   bytes hold a complete head (an empty line) the Upgrader does not read the conn again, so every
-   byte is either reported to OnRequest or still unread on the conn.  (As with the plain Upgrader,
-   bytes that arrive in the same reads as the head are read into a buffer that is not handed to the
-   caller; RFC 6455 4.1 forbids the client to send them before the response.)
-   NOT implied, and false (C11_debug_upgrader_request_truncated_refuted): that OnRequest always
-   receives the whole request. *)
+(* wsutil.DebugUpgrader (after fix F24, d4d7004): result (error, Handshake, bytes written) = the plain
+   Upgrader's on the same conn, for every configuration, buffer size, chunking, read-ahead and answer
+   of net/http's ReadRequest, cutting of writes and callback setting; OnResponse receives exactly the
+   bytes written; OnRequest is called iff set.  No byte is invented or lost by the wrapper:
+   * net/http parsed the request: OnRequest receives exactly the bytes net/http read (a prefix of the
+     client's bytes); the client's bytes are those, then what the Upgrader read from the conn on its
+     own, then what the conn still delivers; when the captured bytes hold a complete head (an empty
+     line) the Upgrader does not read the conn again: every byte is reported or still unread.
+   * net/http refused: the wrapper keeps recording: OnRequest receives the captured bytes followed by
+     everything the Upgrader's bufio.Reader took from the conn, and every byte the client sent is
+     either in that argument or still unread on the conn.
+   * the Upgrader succeeds: the stream has a first empty line at offset h, and (net/http refused, or
+     the captured bytes hold a complete head) OnRequest's argument starts with the complete request
+     head: its first h bytes are the first h bytes of the stream.
+   (As with the plain Upgrader, bytes that arrive in the same reads as the head are read into a buffer
+   that is not handed to the caller; RFC 6455 4.1 forbids the client to send them before the
+   response.  They are reported to OnRequest.) *)
 Theorem C11_debug_upgrader_transparent :
-  forall (wcut : list byte -> list (list byte)), (forall x, concat (wcut x) = x) ->
+  forall (parse_head : list byte -> option nat) (wcut : list byte -> list (list byte)),
+  (forall x, concat (wcut x) = x) ->
   forall stext cfg B, 1 <= B ->
   forall hreads chunks t set_req set_resp,
-  let w := debug_upgrader_full wcut set_req set_resp stext cfg B hreads chunks t in
+  let w := debug_upgrader_full parse_head wcut set_req set_resp stext cfg B hreads chunks t in
   let u := upgrader stext cfg B (mkReader [] chunks t) in
   let captured := fst (tee_fetch hreads [] chunks) in
   fu_res w = u
   /\ concat (fu_conn_out w) = u_out u
   /\ fu_on_response w = (if set_resp then Some (u_out u) else None)
-  /\ fu_on_request w = (if set_req then Some captured else None)
-  /\ (exists mid, concat chunks = (if set_req then captured else []) ++ mid ++ concat (fu_conn w))
-  /\ (set_req = true -> head_end captured <> None -> concat chunks = captured ++ concat (fu_conn w)).
+  /\ (fu_on_request w = None <-> set_req = false)
+  /\ (set_req = false -> exists mid, concat chunks = mid ++ concat (fu_conn w))
+  /\ (set_req = true ->
+       (parse_head captured <> None ->
+          fu_on_request w = Some captured
+          /\ (exists mid, concat chunks = captured ++ mid ++ concat (fu_conn w))
+          /\ (head_end captured <> None -> concat chunks = captured ++ concat (fu_conn w)))
+       /\ (parse_head captured = None ->
+            exists taken, fu_on_request w = Some (captured ++ taken)
+                          /\ concat chunks = (captured ++ taken) ++ concat (fu_conn w))
+       /\ (u_err u = None ->
+            exists h, head_end (concat chunks) = Some h
+              /\ (parse_head captured = None \/ head_end captured <> None ->
+                  exists req, fu_on_request w = Some req /\ (h <= length req)%nat
+                              /\ firstn h req = firstn h (concat chunks)))).
 Proof. exact debug_upgrader_full_transparent. Qed.
 Print Assumptions C11_debug_upgrader_transparent.
 
-(* FINDING (open, reproduced on the Go code: notes/dbgwrap.md): a request that ws.Upgrader accepts
-   and net/http refuses (here the version HTTP/1.10), arriving in two reads of 40 and 113 bytes:
-   net/http gives up after the first read, the Upgrader reads on from the conn and completes the
-   handshake, OnRequest has received only the first 40 bytes. *)
-Theorem C11_debug_upgrader_request_truncated_refuted :
-  exists wcut stext cfg B hreads chunks t,
-    (forall x : list byte, concat (wcut x) = x) /\ 1 <= B /\
-    let w := debug_upgrader_full wcut true true stext cfg B hreads chunks t in
-    u_err (fu_res w) = None /\ fu_on_request w = Some (firstn 40 (concat chunks))
-    /\ length (concat chunks) = 153%nat.
-Proof.
-  exists (fun x => [x]), (fun _ => []), (ucfg0 None), 4096, [4096].
-  exists (let req := bs "GET /ws HTTP/1.10" ++ crlf ++ bs "Host: example.com" ++ crlf
-                     ++ bs "Upgrade: websocket" ++ crlf ++ bs "Connection: Upgrade" ++ crlf
-                     ++ bs "Sec-WebSocket-Version: 13" ++ crlf
-                     ++ bs "Sec-WebSocket-Key: dGhlIHNhbXBsZSBub25jZQ==" ++ crlf ++ crlf in
-          [firstn 40 req; skipn 40 req]), TEof.
-  split; [intros x; cbn; apply app_nil_r|]. split; [lia|]. vm_compute. repeat split; reflexivity.
-Qed.
-Print Assumptions C11_debug_upgrader_request_truncated_refuted.
+(* F24 repaired (replaces C11_debug_upgrader_request_truncated_refuted): when the upgrade succeeds and
+   net/http either refused the request or captured a complete head, OnRequest receives bytes that
+   start with the whole request head, and every byte of the client is in that argument or still
+   unread on the conn. *)
+Theorem C11_debug_upgrader_reports_whole_request :
+  forall (parse_head : list byte -> option nat) (wcut : list byte -> list (list byte)),
+  (forall x, concat (wcut x) = x) ->
+  forall stext cfg B, 1 <= B ->
+  forall hreads chunks t set_resp,
+  let w := debug_upgrader_full parse_head wcut true set_resp stext cfg B hreads chunks t in
+  let captured := fst (tee_fetch hreads [] chunks) in
+  u_err (upgrader stext cfg B (mkReader [] chunks t)) = None ->
+  parse_head captured = None \/ head_end captured <> None ->
+  exists h req, head_end (concat chunks) = Some h
+    /\ fu_on_request w = Some req
+    /\ (h <= length req)%nat /\ firstn h req = firstn h (concat chunks)
+    /\ concat chunks = req ++ concat (fu_conn w).
+Proof. exact debug_upgrader_full_reports_request. Qed.
+Print Assumptions C11_debug_upgrader_reports_whole_request.
+
+(* the witness of F24: a request that ws.Upgrader accepts and net/http refuses (version HTTP/1.10),
+   arriving in two reads of 40 and 113 bytes; net/http gives up after the first read.  The repaired
+   model reports all 153 bytes; the model of the code before d4d7004 reported the first 40. *)
+Example C11_debug_upgrader_F24_witness :
+  let req := bs "GET /ws HTTP/1.10" ++ crlf ++ bs "Host: example.com" ++ crlf
+             ++ bs "Upgrade: websocket" ++ crlf ++ bs "Connection: Upgrade" ++ crlf
+             ++ bs "Sec-WebSocket-Version: 13" ++ crlf
+             ++ bs "Sec-WebSocket-Key: dGhlIHNhbXBsZSBub25jZQ==" ++ crlf ++ crlf in
+  let chunks := [firstn 40 req; skipn 40 req] in
+  let w := debug_upgrader_full (fun _ => None) (fun x => [x]) true true (fun _ => []) (ucfg0 None) 4096 [4096] chunks TEof in
+  let w0 := debug_upgrader_full_old (fun x => [x]) true true (fun _ => []) (ucfg0 None) 4096 [4096] chunks TEof in
+  length req = 153%nat
+  /\ u_err (fu_res w) = None /\ fu_on_request w = Some req /\ fu_conn w = []
+  /\ u_err (fu_res w0) = None /\ fu_on_request w0 = Some (firstn 40 req).
+Proof. vm_compute. repeat split; reflexivity. Qed.
 
 (* non-vacuity of the dialer theorems.
    (a) a realistic exchange: subprotocols chat, superchat; the response is the upgrader model's, one
@@ -400,7 +433,7 @@ Example C11_debug_upgrader_nonvacuous :
   let frame := [129; 129; 1; 2; 3; 4; 121] in
   let all := req ++ frame in
   let chunks := [firstn 100 all; firstn 100 (skipn 100 all); skipn 200 all] in
-  let w := debug_upgrader_full (fun x => [x]) true true (fun _ => []) (ucfg0 sel) 4096
+  let w := debug_upgrader_full head_end (fun x => [x]) true true (fun _ => []) (ucfg0 sel) 4096
              [4096; 3996; 3896] chunks TEof in
   u_err (fu_res w) = None /\ hs_protocol (u_hs (fu_res w)) = bs "superchat"
   /\ fu_on_request w = Some all /\ fu_on_response w = Some (u_out (fu_res w))
